@@ -36,6 +36,7 @@ static bool blocked(const std::string& rule, long arg, const S& w) {
   if (rule == "parity") { long s = 0; for (int x : w) s += x; return s % 2 == 1; }
   if (rule == "size") return (long)w.size() == arg;
   if (rule == "has") return std::find(w.begin(), w.end(), (int)arg) != w.end();
+  if (rule == "mask") { long m = 0; for (int x : w) m |= 1L << x; return m == arg; }        // exactly the simplex with this vertex bit mask
   return false; }
 
 int main() {
